@@ -209,6 +209,7 @@ def spvReply (S : Schema) (m : Msg) : Out :=
 inductive ConnRes where
   | error      -- returns an error that is not ErrClientClosed
   | blocked    -- does not return until the client is closed locally
+  | closed     -- a local Shutdown completed: returns ErrClientClosed
   | panic
 deriving DecidableEq, Repr, Inhabited
 
@@ -217,6 +218,26 @@ def finRes : End → ConnRes
   | .waitDone => .blocked
   | .panic => .panic
   | .fuel => .error
+
+def typCloseConnectionResponse' : Nat := typCloseConnectionResponse
+
+/-- `Shutdown` from the point where `SendMessage` returned the reply to CloseConnection: a CloseConnectionResponse or
+ErrorMessage whose status is Success makes it call `Close` -/
+def shutdownReply (S : Schema) (m : Msg) : Out :=
+  let r := msgData m
+  match r.out with
+  | .panic => .panic
+  | .err => .err
+  | .ok =>
+    let name := if m.hdr.typ = typCloseConnectionResponse then some "CloseConnectionResponse"
+                else if m.hdr.typ = typErrorMessage then some "ErrorMessage" else none
+    match name.bind S.msg? with
+    | none => .err
+    | some c => match decode S c r.data with
+      | none => .err
+      | some v => match llrpStatusOf c v with
+        | some st => if statusCode st = some 0 then .ok else .err
+        | none => .err
 
 /-- the message a caller awaiting `id` is handed, if any -/
 def callerDelivery (r : Result) (id : Nat) : Option Delivery :=
@@ -238,15 +259,20 @@ def unfinished (r : Result) : ConnRes := if r.fin = .panic then .panic else .err
 /-- `Connect` on a complete inbound stream `s`, for a client configured with LLRP version `ver` (1 = 1.0.1: no
 negotiation; 2 = 1.1). The write loop gives the two negotiation requests the ids 0 and 1. `env` carries the handler
 behaviours and the registrations of external callers, indexed by the frames AFTER the first message. -/
-def connect (S : Schema) (ver : Nat) (cfg : Cfg) (beh0 : Beh) (env : Nat → Step) (s : Bytes) : ConnOut :=
+def connect (S : Schema) (ver : Nat) (cfg : Cfg) (beh0 : Beh) (env : Nat → Step) (s : Bytes)
+    (shutdown : Option Nat := none) : ConnOut :=
   let ini := checkInitial S cfg beh0 s
   match ini.out with
   | .panic => { res := .panic, initAllocs := ini.allocs }
   | .err => { res := .error, initAllocs := ini.allocs }
   | .ok =>
     if ver ≤ 1 then
-      let r := rd cfg env [] ini.rest
-      { res := finRes r.fin, run := some r, initAllocs := ini.allocs }
+      -- `shutdown = some id`: a local Shutdown sent CloseConnection with that id (only modelled for 1.0.1 sessions)
+      let r := rd { cfg with closing := shutdown.isSome } env [] ini.rest
+      let accepted : Bool := match shutdown.bind (callerDelivery r) with
+        | some d => shutdownReply S d.toMsg == .ok
+        | none => false
+      { res := if r.fin = .panic then .panic else if accepted then .closed else finRes r.fin, run := some r, initAllocs := ini.allocs }
     else
       let env1 := addReg env 0 0
       let r1 := rd cfg env1 [] ini.rest
